@@ -28,18 +28,18 @@ def vectors(ctx, states):
         for off in offs:
             if abs(cprgen.rx20(c["a0"]) + off[0]) > 262144:
                 continue
-            for evn in ((0, 1) if not ctx.quick else (k % 2,)):
+            for evn in ((0, 1) if not ctx.quick else (rng.randrange(2),)):
                 a, o = truth[0] if evn else truth[1]
                 ni = max(c["e0"]["ni"], 1)
                 r = cprgen.rx20(a) + off[0]
                 s = cprgen.rx20(o) + (off[1] if c["e0"]["ni"] >= 20 else (off[1] * 59) // (3 * ni))
                 te, to = (5, 1) if evn else (1, 1 + k % 2)
-                tq = 1 if k % 4 == 0 else 0
+                tq = 1 if rng.random() < 0.25 else 0      # drawn independently (see C03)
                 if tq:
                     te, to = (4 * 3 + 2, 4 * 3 + 1) if evn else (4 * 3 + 1, 4 * 3 + 1 + k % 2)
                 fn = "adsb.position" if (k + evn) % 2 else "adsb.surface_position"
                 V.append({"fn": fn, "f0": fe, "f1": fo, "t0": te, "t1": to, "ht": 1, "truth": truth, "kind": "surf",
-                          "hasref": 1, "r": r, "s": s, "dt": {0: 1, 6: 2, 9: 3}.get(k % 13, 0), "tq": tq,
+                          "hasref": 1, "r": r, "s": s, "dt": rng.choice([0, 0, 0, 0, 0, 0, 1, 1, 2, 3]), "tq": tq,
                           "case": [c["a0"], c["o0"], c["a1"] - c["a0"], c["o1"] - c["o0"], off[0], off[1], evn]})
         if k % 25 == 0:
             V.append({"fn": "adsb.position", "f0": fe, "f1": fo, "t0": 1, "t1": 2, "ht": 0, "truth": truth, "kind": "surf",
